@@ -212,7 +212,6 @@ def obligations(tier: str):
     add("eval_budget", "loop_gp_mutation_step", alg="gp", N=N, pop=3, step="mutation")
     add("eval_budget", "loop_gp_elitism_novelty_mutation", alg="gp", N=N if T else 5, pop=4, popmin=4, step="mixed")
     add("eval_budget", "loop_gp_elitism_only", alg="gp", N=4, pop=2, step="elitism_only")
-    add("eval_budget", "loop_gp_zero_fresh_allowed", alg="gp", N=4, pop=2, step="freshk", kmin=0)
     for alg in ("rs", "1p1"):
         add("target", f"target_{alg}", alg=alg, N=4 if T else 3)
     add("target", "target_rs_budget_first", alg="rs", N=3, anyof_order="eb_first")
